@@ -19,7 +19,7 @@ from checks import corecheck as K
 
 PID = "C01"
 # component checks contributing obligations to this property (registered here once they are complete)
-COMPONENTS = []
+COMPONENTS = ["checks.c01_comp"]
 PINNED = ["int_add_wraps", "int_sub_wraps", "int_mul_wraps", "wrap64_range", "wrap64_id", "wrap64_congr",
           "div_always_float", "falsy_only_null_false", "and_short_circuits", "or_short_circuits",
           "chain_stops_at_false", "if_without_else_is_null"]
